@@ -46,6 +46,16 @@ def generate(rng, tier):
             for j, b in enumerate(cands):
                 cases.append(Case("pat.best", [enc(pat), enc(a), enc(b)], meta={"group": g, "i": i, "j": j, "cands": cands, "pat": pat}))
             cases.append(Case("pat.match", [enc(pat), enc(a)], meta={"group": g, "m": i}))
+    # patterns with thousands of expansions: every candidate the pattern matches takes part, also one that only the
+    # last expansion matches
+    for gi, k in enumerate((10, 12, 13)):
+        pat = "x" + "{a,b}" * k + "-[0-9]*"
+        cands = ["x" + "b" * k + "-2.0", "x" + "a" * k + "-1.0", "x" + "b" * (k - 1) + "a-1.5", "x" + "b" * k + "c-9"]
+        g = "wide%d" % gi
+        for i, a in enumerate(cands):
+            for j, b in enumerate(cands):
+                cases.append(Case("pat.best", [enc(pat), enc(a), enc(b)], meta={"group": g, "i": i, "j": j, "cands": cands, "pat": pat}))
+            cases.append(Case("pat.match", [enc(pat), enc(a)], meta={"group": g, "m": i}))
     return cases
 
 
